@@ -232,6 +232,11 @@ func (e Engine) Generate(prop, tier string, run int, seed uint64) *kernel.Scenar
 			// many participants, around the count at which the signature slots'
 			// keys get a digit more
 			n = []int{9, 10, 10, 11}[wr.Intn(4)]
+			if wr.Bool(0.25) {
+				// so many participants that one persister call writes more keys than
+				// a small batch holds
+				n = []int{62, 64, 65}[wr.Intn(3)]
+			}
 			own = wr.Intn(n)
 		}
 		set("n", n)
